@@ -13,6 +13,7 @@ pub fn mk_hs(s: HSpec) -> HS {
         HSpec::Ident => HS::Ident,
         HSpec::Zero => HS::Zero,
         HSpec::Random => HS::Random(caches::DefaultHashBuilder::default()),
+        HSpec::Chaos(n) => HS::Chaos(std::cell::Cell::new(0), n as u64),
     }
 }
 
